@@ -5,7 +5,8 @@ from __future__ import annotations
 import ast
 
 from .. import cfg as cfgmod
-from ..astutil import call_name, const_str, guard_texts, guards_of, kw, star_kwargs
+from ..astutil import call_name, const_str, guard_texts, guards_of, kw, message_skeleton, star_kwargs
+from ..dataflow import ReachingDefs
 from ..callgraph import CallGraph
 from ..loader import AnalysisError, ancestors, norm, parent, walk_own
 from ..prov import Prov, xml_sites
@@ -106,14 +107,24 @@ def run(ctx):
     w2j = ctx.func("pyxform.xls2json:workbook_to_json", "C17.R2")
     loop = _row_loop(w2j)
     sheet_level = ("There should be a choices sheet", "There should be an external_choices sheet")
-    for x in walk_own(loop):
-        if isinstance(x, ast.Raise) and x.exc is not None:
-            key = f"workbook_to_json:{norm(x.exc)[:70]}"
-            if any(s in norm(x) or _depends_text(w2j.node, x, s) for s in sheet_level):
-                r2.ok(key, "accepted: the error is about a missing sheet, not about this row", w2j.loc(x))
-                continue
-            r2.check(_depends_on(w2j.node, x.exc, {"row_number"}), key, "the message is built from the loop's row number", w2j.loc(x),
-                     why_fail="message does not depend on row_number")
+    # flow-sensitive: the definitions of the message that REACH the raise decide (a temporary called `msg` is reused
+    # all over the loop); the finding is keyed by the literal skeleton of the message, not by how it is assembled
+    lg = cfgmod.build(loop.body)
+    rd = ReachingDefs(lg, skip_labels=frozenset({"exc"}))
+    rownum = {n for n in _loop_targets(loop)[:1]} or {"row_number"}
+    for nid, nd in lg.nodes.items():
+        x = nd.stmt
+        if nd.kind != "stmt" or not isinstance(x, ast.Raise) or x.exc is None:
+            continue
+        msg = x.exc.args[0] if isinstance(x.exc, ast.Call) and x.exc.args else x.exc
+        resolved = rd.resolve(nid, msg)
+        skel = message_skeleton(ctx, w2j.module, resolved)
+        key = f"workbook_to_json:raise:{skel[:90]}"
+        if any(s in skel for s in sheet_level):
+            r2.ok(key, "accepted: the error is about a missing sheet, not about this row", w2j.loc(x))
+            continue
+        r2.check(rd.depends_on(nid, x.exc, rownum), key, "the message is built from the loop's row number", w2j.loc(x),
+                 why_fail="message does not depend on the row number")
     # helpers called from the loop that raise PyXFormError must receive the row number
     helper_calls = {}
     for c in walk_own(loop):
@@ -263,6 +274,13 @@ def run(ctx):
                 r4.ok(f"K8 {s.fi.fq}:{norm(s.call)[:60]}", "no explicit keyword can collide with an author-controlled key", s.loc)
     rules.append(r4)
     return rules
+
+
+def _loop_targets(loop) -> list[str]:
+    t = loop.target
+    if isinstance(t, ast.Tuple):
+        return [e.id for e in t.elts if isinstance(e, ast.Name)]
+    return [t.id] if isinstance(t, ast.Name) else []
 
 
 def _depends_text(fn_node, raise_stmt, text: str) -> bool:
